@@ -63,7 +63,7 @@ def generate(T, tier):
     gen.write_gen("c12_list.rs", "\n".join(code))
     return {
         "harnesses": hs,
-        "groups": {"stub": {"features": ["c12"], "timeout_s": 3000, "max_jobs": 5, "unwindset": [["try_from_fn_erased", 392]], "kani_args": ["-Z", "stubbing"]}},
+        "groups": {"stub": {"features": ["c12"], "est_gb": 8, "timeout_s": 3000, "max_jobs": 5, "unwindset": [["try_from_fn_erased", 392]], "kani_args": ["-Z", "stubbing"]}},
         "level": "model_checking",
         "functions": ["rtcm_rs::MessageBuilder::{new,build_message,clear_data}", "hooks: MessageBuilder::{verif_from_raw,verif_raw}"],
         "bounds": {"L1": "complete 1029-byte state", "typed": "messages %s with small lists; dirty window of 96 bytes" % [p[0] for p in plan],
